@@ -33,17 +33,18 @@ var (
 )
 
 type world struct {
-	root   string
-	gen    int
-	n      *node.Node
-	la     int
-	fresh  map[int]bool
-	bad    map[int]bool // entries appended as bytes the replicator cannot decompress
-	out    *vh.Out
-	failed bool
-	evs    []string
-	evJ    []string
-	obs    []string
+	root    string
+	gen     int
+	n       *node.Node
+	la      int
+	fresh   map[int]bool
+	bad     map[int]bool // entries appended as bytes the replicator cannot decompress
+	out     *vh.Out
+	failed  bool
+	abandon bool
+	evs     []string
+	evJ     []string
+	obs     []string
 	// a replica step in progress
 	actor *actor
 	kinds map[string]int
@@ -344,6 +345,24 @@ func (w *world) otherHour() {
 	w.out.Count("other-hour-family-flushed")
 }
 
+// expireCheck: Partition.IsExpire as the periodic WAL clean-up runs it (writeAheadLog.destroy deletes the partition's log
+// directory when it answers true).  For the model it is the Sync + GC it starts with; its verdict is judged directly:
+// "all data can be deleted" only if every appended entry is acknowledged, i.e. stored with flushed data.
+func (w *world) expireCheck() {
+	w.finishPendingFlush()
+	verdict := w.n.Part.IsExpire()
+	w.emit("WalSync")
+	w.out.Count("expire-checks")
+	app, ack := w.n.Log.Queue().AppendedSeq(), w.n.Group.AcknowledgedSeq()
+	if verdict && ack < app {
+		w.out.Violation(0, "log-deletable-with-unflushed-entries",
+			fmt.Sprintf("Partition.IsExpire answers true (the clean-up task deletes the log directory) while entries %d..%d are not acknowledged: applied to the memory database at most, a crash now loses them",
+				ack+1, app), nil)
+		// the verdict has stopped the replicator and closed its consumer group: the node is left as it is
+		w.failed, w.abandon = true, true
+	}
+}
+
 func (w *world) finishPendingFlush() {
 	if w.pendingFlush == nil {
 		return
@@ -500,6 +519,15 @@ func runHistory(out *vh.Out, root string, id int, name, sig string, disc bool, s
 			if w.actor == nil && w.pendingFlush == nil {
 				w.otherHour()
 			}
+		case "e":
+			// the WAL clean-up task looks at the partition (the family lies years back, so it is expired by time), then
+			// the node crashes: the verdict "nothing left, the log can be deleted" stops the replicator, so a restart follows
+			if w.actor == nil {
+				w.expireCheck()
+				if !w.failed {
+					w.crashRestart()
+				}
+			}
 		}
 	}
 	// drain a replica step in progress
@@ -510,7 +538,11 @@ func runHistory(out *vh.Out, root string, id int, name, sig string, disc bool, s
 			w.rnext("R3")
 		}
 	}
-	// the end of every history: crash, replay everything the log still offers, flush in the checker's order
+	// the end of every history: the clean-up task's look at the partition, crash, replay everything the log still offers,
+	// flush in the checker's order
+	if !w.failed {
+		w.expireCheck()
+	}
 	if !w.failed {
 		w.crashRestart()
 		for w.canConsume() && !w.failed {
@@ -523,7 +555,9 @@ func runHistory(out *vh.Out, root string, id int, name, sig string, disc bool, s
 		w.flushData(false)
 	}
 	verifhook.Set(nil)
-	w.n.Close()
+	if !w.abandon {
+		w.n.Close()
+	}
 	var obs []string
 	for _, o := range w.obs {
 		if o == "" {
@@ -576,6 +610,8 @@ func randomScript(r *vh.Rand) []string {
 			// the family keeps the callbacks of every replicator ever registered; a rebuilt partition is followed by a
 			// crash here, so that only the live replicator acknowledges (see DESIGN, C07)
 			sc = append(sc, "b", "x")
+		case x < 96:
+			sc = append(sc, "e")
 		default:
 			sc = append(sc, "x")
 		}
